@@ -110,6 +110,19 @@ func main() {
 		}
 	}
 	gen(nil)
+	// one-byte names that differ from a defined one-letter flag by the top bit, by case plus top bit, or in one low bit (a name
+	// looked up in a table indexed by a masked byte): all of them are undefined flags
+	for _, c := range []byte("btsiu") {
+		for _, x := range []byte{c | 0x80, (c ^ 0x20) | 0x80, c ^ 0x01, c ^ 0x40} {
+			for _, form := range []string{"-%s", "--%s", "-%s=v", "-%s=7", "-%s=true", "--%s=false"} {
+				tok := fmt.Sprintf(form, string([]byte{x}))
+				w.Put(run([]string{tok}))
+				w.Put(run([]string{tok, "v"}))
+				w.Put(run([]string{"-b", tok}))
+				w.Put(run([]string{"-s=keep", tok, "-i=7"}))
+			}
+		}
+	}
 	rng := rand.New(rand.NewSource(vio.Seed()))
 	pieces := []string{"-", "--", "=", "b", "t", "s", "i", "help", "config", "u", "true", "false", "0", "1", "7", "-5", "x", "v", " ", "\x00", "\xff", "é", "=="}
 	for k := 0; k < *extra; k++ {
